@@ -206,6 +206,9 @@ func main() {
 			[]string{"/f/{p}\u00e9", "/f/{p}\u65e5", "/f/{p}.z"}, []string{"/g/\u00e9", "/g/\u00e8"}, []string{"/g/\u00e9", "/g/{p}"}, []string{"/\u00e9/{p}"}, []string{"/\u65e5\u672c/{p}/z"},
 			[]string{"/k/{p}\u00e9{q}"}, []string{"/k/{p}\u00e9{q}", "/k/{p}-{q}"}, []string{"/m/{p}\u00e9/x", "/m/{p}/y"},
 		)
+		// static text behind a parameter that starts with a hex digit (the escapes of an argument are
+		// made of hex digits)
+		sets = append(sets, []string{"/x/{p}2"}, []string{"/x/{p}0/z"}, []string{"/x/{p}C"}, []string{"/x/{p}2", "/x/{p}-y"}, []string{"/x/{p}9{q}"})
 		if r.Thorough() {
 			red := templatesOver([]string{"a", "{p}", "a{p}", "{p}a"}, 2)
 			for _, s := range subsets(red, 3) {
@@ -222,10 +225,13 @@ func main() {
 		}
 	}
 
-	if os.Getenv("VERIF_C05_ONLY") == "nonascii" { // development aid: only the sets with non-ASCII text
+	if only := os.Getenv("VERIF_C05_ONLY"); only != "" { // development aid: only the sets with non-ASCII text / hex-digit tails
 		var keep [][]string
 		for _, s := range sets {
-			if strings.IndexFunc(strings.Join(s, ""), func(r rune) bool { return r >= 0x80 }) >= 0 {
+			if only == "hextail" && strings.HasPrefix(s[0], "/x/{p}") {
+				keep = append(keep, s)
+			}
+			if only == "nonascii" && strings.IndexFunc(strings.Join(s, ""), func(r rune) bool { return r >= 0x80 }) >= 0 {
 				keep = append(keep, s)
 			}
 		}
